@@ -116,6 +116,10 @@ def main(tier):
     rng = np.random.default_rng(SEED + 44)
     rate_level(chk, core, rng, 180 if quick else 3000)
     rate_level_ties(chk, core, cases, rng)
+    # every grain count: exact cyclic aggregates in rotated frames with two-folds on every other round of copies
+    from harness.checks.C02 import size_sweep
+
+    size_sweep(chk, cases, 16384 if quick else 40000, PARS, frames=True, clause_prefix="size-sweep-frame")
     events, meta = [], {}
     for si, sc in enumerate(scens):
         o0, f0 = pairs.initial(sc, rng)
